@@ -1,2 +1,196 @@
-(* Proofs/RegionsProofsB.v *)
+(* Proofs/RegionsProofsB.v — the sweep and the binary search. *)
+From Coq Require Import Sorting.Permutation Sorting.Sorted.
 From Bio Require Import Base.
+From Bio.Model Require Import Regions.
+From Bio.Spec Require Import RegionsSpec.
+From Bio.Proofs Require Import RegionsProofs.
+Open Scope Z_scope.
+
+(* ---------------- the sweep ---------------- *)
+
+Definition pos_sorted (evs : list event) : Prop :=
+  StronglySorted (fun a b => e_pos a <= e_pos b) evs.
+
+Lemma sorted_events_pos evs : sorted_events evs -> pos_sorted evs.
+Proof.
+  unfold sorted_events, pos_sorted. induction 1 as [|a l Hl IH Ha]; constructor; [exact IH|].
+  rewrite Forall_forall in *. intros y Hy. apply ev_le_pos. now apply Ha.
+Qed.
+
+(* the first-iteration initialisation [if i == 0 { pos = e.pos }] *)
+Lemma sweep_first e r p idxs :
+  sweep (e :: r) true p idxs = sweep (e :: r) false (e_pos e) idxs.
+Proof. reflexivity. Qed.
+
+Lemma sweep_head evs : forall p idxs, exists a rest, sweep evs false p idxs = (p, a) :: rest.
+Proof.
+  induction evs as [|e r IH]; intros p idxs; cbn [sweep].
+  - now exists idxs, [].
+  - destruct (negb (e_pos e =? p)); [now eexists; eexists|apply IH].
+Qed.
+
+Lemma sweep_sorted evs : forall p idxs,
+  pos_sorted evs -> Forall (fun e => p <= e_pos e) evs ->
+  strictly_ascending (map fst (sweep evs false p idxs)).
+Proof.
+  unfold strictly_ascending, pos_sorted.
+  induction evs as [|e r IH]; intros p idxs S F; cbn [sweep].
+  - cbn. repeat constructor.
+  - inversion S as [|? ? Sr Se]; inversion F as [|? ? Fe Fr]; subst.
+    destruct (Z.eqb_spec (e_pos e) p) as [E|E]; cbn [negb].
+    + apply IH; [exact Sr|]. rewrite <- E. exact Se.
+    + specialize (IH (e_pos e) (if e_start e then set_add (e_idx e) idxs
+                                 else set_remove (e_idx e) idxs) Sr Se).
+      destruct (sweep_head r (e_pos e) (if e_start e then set_add (e_idx e) idxs
+                                 else set_remove (e_idx e) idxs)) as (a & rest & Hs).
+      rewrite Hs in *. cbn [map fst] in *.
+      constructor; [exact IH|].
+      inversion IH as [|? ? _ Hrest]; subst.
+      constructor; [lia|].
+      rewrite Forall_forall in *. intros z Hz. specialize (Hrest _ Hz). lia.
+Qed.
+
+Lemma sweep_lookup evs : forall p idxs x cur,
+  pos_sorted evs -> Forall (fun e => p <= e_pos e) evs -> p <= x ->
+  lookup (sweep evs false p idxs) x cur =
+  apply_events (filter (fun e => e_pos e <=? x) evs) idxs.
+Proof.
+  unfold pos_sorted.
+  induction evs as [|e r IH]; intros p idxs x cur S F Hx; cbn [sweep].
+  - cbn. destruct (Z.leb_spec p x); [reflexivity|lia].
+  - inversion S as [|? ? Sr Se]; inversion F as [|? ? Fe Fr]; subst.
+    cbn [filter].
+    destruct (Z.eqb_spec (e_pos e) p) as [E|E]; cbn [negb].
+    + destruct (Z.leb_spec (e_pos e) x); [|lia].
+      cbn. apply IH; [exact Sr| |exact Hx]. rewrite <- E. exact Se.
+    + cbn [lookup fst snd]. destruct (Z.leb_spec p x); [|lia].
+      destruct (Z.leb_spec (e_pos e) x).
+      * cbn. apply IH; [exact Sr|exact Se|assumption].
+      * destruct (sweep_head r (e_pos e) (if e_start e then set_add (e_idx e) idxs
+                                 else set_remove (e_idx e) idxs)) as (a & rest & Hs).
+        rewrite Hs. cbn [lookup fst].
+        destruct (Z.leb_spec (e_pos e) x); [lia|].
+        rewrite filter_none; [reflexivity|].
+        rewrite Forall_forall in *. intros y Hy. specialize (Se _ Hy).
+        apply Z.leb_gt. lia.
+Qed.
+
+(* the whole index, for any event list that satisfies the sort contract *)
+Lemma breakpoints_sorted evs :
+  pos_sorted evs -> strictly_ascending (map fst (breakpoints evs)).
+Proof.
+  unfold breakpoints. destruct evs as [|e r]; intros S.
+  - cbn. repeat constructor.
+  - rewrite sweep_first. apply sweep_sorted; [exact S|].
+    inversion S as [|? ? Sr Se]; subst. constructor; [lia|exact Se].
+Qed.
+
+Lemma breakpoints_lookup evs x :
+  pos_sorted evs ->
+  lookup (breakpoints evs) x [] = apply_events (filter (fun e => e_pos e <=? x) evs) [].
+Proof.
+  unfold breakpoints. destruct evs as [|e r]; intros S.
+  - cbn. now destruct (0 <=? x).
+  - rewrite sweep_first.
+    assert (F : Forall (fun e' => e_pos e <= e_pos e') (e :: r)).
+    { inversion S as [|? ? Sr Se]; subst. constructor; [lia|exact Se]. }
+    destruct (Z.leb_spec (e_pos e) x).
+    + now apply sweep_lookup.
+    + destruct (sweep_head (e :: r) (e_pos e) []) as (a & rest & Hs).
+      rewrite Hs. cbn [lookup fst].
+      destruct (Z.leb_spec (e_pos e) x); [lia|].
+      rewrite filter_none; [reflexivity|].
+      rewrite Forall_forall in *. intros y Hy. specialize (F _ Hy).
+      apply Z.leb_gt. lia.
+Qed.
+
+(* ---------------- rank and lookup ---------------- *)
+
+Lemma rank_le_length ix x : (rank ix x <= length ix)%nat.
+Proof.
+  induction ix as [|iv r IH]; cbn; [lia|]. destruct (fst iv <=? x); cbn; lia.
+Qed.
+
+Lemma rank_below ix x : forall k iv,
+  nth_error ix k = Some iv -> (k < rank ix x)%nat -> fst iv <= x.
+Proof.
+  induction ix as [|a r IH]; intros k iv Hn Hk; cbn in Hk; [lia|].
+  destruct (Z.leb_spec (fst a) x); [|lia].
+  destruct k as [|k]; cbn in Hn.
+  - now inversion Hn; subst.
+  - apply (IH k); [exact Hn|lia].
+Qed.
+
+Lemma rank_above ix x : strictly_ascending (map fst ix) -> forall k iv,
+  nth_error ix k = Some iv -> (rank ix x <= k)%nat -> x < fst iv.
+Proof.
+  unfold strictly_ascending.
+  induction ix as [|a r IH]; intros S k iv Hn Hk; [now destruct k|].
+  cbn [map] in S. inversion S as [|? ? Sr Sa]; subst.
+  cbn in Hk. destruct (Z.leb_spec (fst a) x).
+  - destruct k as [|k]; [lia|]. cbn in Hn. apply (IH Sr k); [exact Hn|lia].
+  - destruct k as [|k]; cbn in Hn.
+    + now inversion Hn; subst.
+    + apply nth_error_In in Hn. rewrite Forall_forall in Sa.
+      specialize (Sa (fst iv) (in_map fst _ _ Hn)). lia.
+Qed.
+
+Lemma lookup_rank ix x : forall cur,
+  lookup ix x cur = match rank ix x with
+                    | O => cur
+                    | S a => snd (nth a ix (0, []))
+                    end.
+Proof.
+  induction ix as [|iv r IH]; intros cur; cbn [lookup rank]; [reflexivity|].
+  destruct (fst iv <=? x); [|reflexivity].
+  rewrite IH. now destruct (rank r x).
+Qed.
+
+(* ---------------- sort.Search ---------------- *)
+
+Lemma div2_bounds n : (2 * Nat.div2 n <= n < 2 * Nat.div2 n + 2)%nat.
+Proof.
+  pose proof (Nat.div2_odd n) as H. destruct (Nat.odd n); cbn [Nat.b2n] in H; lia.
+Qed.
+
+Lemma search_loop_correct ix x : strictly_ascending (map fst ix) ->
+  forall fuel i j,
+  (i <= rank ix x <= j)%nat -> (j <= length ix)%nat -> (j - i < fuel)%nat ->
+  search_loop fuel ix x i j = Ok (rank ix x).
+Proof.
+  intros S. induction fuel as [|fuel IH]; intros i j Hr Hj Hf; [lia|].
+  cbn [search_loop]. unfold index, interval in *.
+  destruct (Nat.ltb_spec i j) as [Hij|Hij]; [|f_equal; lia].
+  pose proof (div2_bounds (i + j)) as Hh.
+  remember (Nat.div2 (i + j)) as h eqn:Eh. clear Eh.
+  destruct (nth_error ix h) as [iv|] eqn:Hn.
+  - destruct (Z.gtb_spec (fst iv) x) as [G|G]; cbn [negb].
+    + apply IH; [|lia|lia]. split; [lia|].
+      destruct (Nat.le_gt_cases (rank ix x) h) as [|Hlt]; [assumption|].
+      pose proof (rank_below ix x h iv Hn Hlt). lia.
+    + apply IH; [|lia|lia]. split; [|lia].
+      destruct (Nat.le_gt_cases (rank ix x) h) as [Hle|]; [|lia].
+      pose proof (rank_above ix x S h iv Hn Hle). lia.
+  - apply nth_error_None in Hn. lia.
+Qed.
+
+Lemma search_correct ix x :
+  strictly_ascending (map fst ix) -> search ix x = Ok (rank ix x).
+Proof.
+  intros S. unfold search. pose proof (rank_le_length ix x).
+  unfold index, interval in *.
+  apply search_loop_correct; [exact S|lia|lia|lia].
+Qed.
+
+(* At = the linear scan, on a strictly ascending breakpoint list *)
+Lemma at_lookup ix x :
+  strictly_ascending (map fst ix) -> at_ ix x = Ok (lookup ix x []).
+Proof.
+  intros S. unfold at_. rewrite (search_correct ix x S). cbn [obind].
+  rewrite lookup_rank. pose proof (rank_le_length ix x) as Hl.
+  unfold index, interval in *.
+  destruct (rank ix x) as [|a]; [reflexivity|].
+  destruct (nth_error ix a) as [iv|] eqn:Hn.
+  - now rewrite (nth_error_nth _ _ _ Hn).
+  - apply nth_error_None in Hn. lia.
+Qed.
